@@ -164,7 +164,12 @@ def run_ctor(cfg):
         return si.Tok('filt', dtype='c16')
     FFT.fft = staticmethod(fft)
 
-    class NP:
+    class _NPMeta(type):
+        def __getattr__(cls, n):          # anything else (np.mean of a support pair, ...) is real NumPy on concrete values
+            import numpy
+            return getattr(numpy, n)
+
+    class NP(metaclass=_NPMeta):
         float64 = 'f8'
         complex128 = 'c16'
         fft = FFT
